@@ -222,6 +222,12 @@ func (f *FakeIPFS) serve(w http.ResponseWriter, r *http.Request) {
 		case <-r.Context().Done():
 		case <-time.After(rep.Stall):
 		}
+		// a daemon that hung never answers: drop the connection
+		if hj, ok := w.(http.Hijacker); ok {
+			if conn, _, err := hj.Hijack(); err == nil {
+				conn.Close()
+			}
+		}
 		return
 	}
 	p := strings.TrimPrefix(r.URL.Path, "/api/v0/")
@@ -278,7 +284,8 @@ func (f *FakeIPFS) serve(w http.ResponseWriter, r *http.Request) {
 			case <-r.Context().Done():
 			case <-time.After(rep.Stall):
 			}
-			return
+			panic(http.ErrAbortHandler) // abort the response: never a clean end
+
 		case "progress-late-error":
 			// go-ipfs-cmds: a late error travels as trailer after a clean chunked EOF
 			setHandled("pin/add late error in trailer")
